@@ -48,6 +48,68 @@ pub fn run(thorough: bool) -> Vec<Part> {
         }
         parts.push(part);
     } else {
+        // long error histories on one connection (R-build, stateless): dozens of rejected
+        // requests with header lines, then valid ones - per-request bookkeeping must not
+        // accumulate across rejected requests
+        let mut part = Part::new("C11", "long-error-histories-r", "model_checking");
+        part.assume("R-build: streams of 43..200 rejected requests (each with 0-3 accepted header lines before the fault) followed by well-formed requests with headers and bodies, under greedy, 1024-, 100- and 7-byte reads, in lock-step with a fresh connection after every error");
+        let mut cases: Vec<(String, Vec<u8>)> = vec![];
+        for (n, hdrs) in [(43usize, 3usize), (70, 2), (200, 1), (140, 0)] {
+            let mut st = vec![];
+            for i in 0..n {
+                st.extend_from_slice(format!("GET /bad{} HTTP/1.1\r\n", i).as_bytes());
+                for h in 0..hdrs {
+                    st.extend_from_slice(format!("X-h{}: {}\r\n", h, i).as_bytes());
+                }
+                st.extend_from_slice(b"nocolon\r\n");
+            }
+            st.extend_from_slice(b"PUT /good HTTP/1.1\r\nX-a: 1\r\nX-b: 2\r\nContent-Length: 3\r\n\r\nabcGET /tail HTTP/1.0\r\nX-c: 3\r\n\r\n");
+            cases.push((format!("{} rejected requests with {} header lines each, then two valid requests", n, hdrs), st));
+        }
+        let t = crate::par::par_enum(
+            cases.len() as u64,
+            workers().min(cases.len()),
+            300,
+            |i, t| {
+                let (name, st) = &cases[i as usize];
+                let mut cfg = Cfg::base("C11", name, vec![], 51200);
+                cfg.stream = Some(st.clone());
+                cfg.continue_after_error = true;
+                cfg.empty_reads = false;
+                // every rejected request sits in its own reads: cut after each line
+                let mut line_segs = vec![];
+                let mut start = 0;
+                for (j, w) in st.windows(2).enumerate() {
+                    if w == b"\r\n" {
+                        line_segs.push(j + 2 - start);
+                        start = j + 2;
+                    }
+                }
+                if start < st.len() {
+                    line_segs.push(st.len() - start);
+                }
+                for segs in [line_segs, vec![7; st.len() / 7 + 1]] {
+                    let (v, _, _, acts) = crate::connx::run_segments(&cfg, &segs, false);
+                    t.evals += 1;
+                    t.nontrivial += 1;
+                    if let Some((sig, d)) = v {
+                        t.violate(&sig, format!("[{}] {}", name, &d[..d.len().min(600)]), crate::connx::schedule_replay(&cfg, &acts[..acts.len().min(300)]));
+                    }
+                }
+                t.sample(serde_json::json!({"case": name, "bytes": st.len()}));
+            },
+            |i| format!("long error history {}", i),
+        );
+        part.add("stateless_runs", t.evals);
+        part.add("transitions", t.evals);
+        part.add("traces_validated_against_impl", t.evals);
+        for v in &t.violations {
+            part.violations.push(v.clone());
+        }
+        for e in &t.machinery_errors {
+            part.machinery_errors.push(e.clone());
+        }
+        parts.push(part);
         parts.push(crate::props::srv::c11_server(thorough));
     }
     parts
